@@ -369,3 +369,27 @@ Theorem eff_order_is_permutation hints ordered t0 t1 : dom t0 t1 -> NoDup (ids t
   let raw := fst (compare ordered t0 t1) in
   Permutation (eff_order hints raw) (added_ids raw).
 Proof. intros Hd Hn. apply eff_order_perm. now apply added_ids_nodup. Qed.
+
+(* ------------------------------------------------------------------ *)
+(* the executable test of the no-error hypotheses is sound             *)
+(* ------------------------------------------------------------------ *)
+Lemma sib_unique_b_sound f : sib_unique_b f = true -> sib_unique f.
+Proof.
+  unfold sib_unique_b. intros H. apply andb_true_iff in H. destruct H as [H1 H2]. rewrite forallb_forall in H2.
+  split; [now apply nodupb_sound|]. intros x Hx. apply nodupb_sound. now apply H2.
+Qed.
+
+Lemma hash_inj_b_sound l : hash_inj_b l = true -> hash_inj l.
+Proof.
+  unfold hash_inj_b. intros H x y Hx Hy E. rewrite forallb_forall in H. specialize (H x Hx).
+  rewrite forallb_forall in H. specialize (H y Hy). unfold hkey in E. rewrite E, Z.eqb_refl in H. cbn in H.
+  now apply Z.eqb_eq in H.
+Qed.
+
+Theorem no_raise_b_sound hints ordered reduce t0 t1 : no_raise_b t0 t1 = true ->
+  diff_tree_lit hints ordered reduce t0 t1 <> None.
+Proof.
+  unfold no_raise_b. intros H. apply andb_true_iff in H. destruct H as [H H3]. apply andb_true_iff in H. destruct H as [H1 H2].
+  rewrite (diff_no_error hints ordered reduce t0 t1); [discriminate|now apply dom_b_sound|now apply sib_unique_b_sound|
+    now apply hash_inj_b_sound].
+Qed.
